@@ -1,8 +1,12 @@
 #!/bin/bash
-# usage: trypatch.sh <patch.diff> <ID> [tier]  -- apply a seeded change to /repo, run the check, undo.
-P="$1"; ID="$2"; TIER="${3:-quick}"
-git -C /repo apply "$P" || { echo "patch does not apply"; exit 3; }
-/verif/check "$ID" "$TIER" -noevidence 2>&1 | grep -E "VIOLATION|KNOWN|OK property|INCONCLUSIVE|violation:" | head -12
+# usage: trypatch.sh <patch.diff> <ID> [tier] [extra gosmt flags]
+# Runs a check against /repo's HEAD plus a seeded change, in a scratch worktree (VERIF_REPO), so that /repo itself is
+# never touched and other checks can run at the same time. The worktree is removed afterwards.
+P="$(readlink -f "$1")"; ID="$2"; TIER="${3:-quick}"; shift; shift; shift 2>/dev/null
+W=/tmp/trypatch-$ID-$$
+git -C /repo worktree add -q --detach $W HEAD || exit 3
+trap 'git -C /repo worktree remove --force $W >/dev/null 2>&1' EXIT
+git -C $W apply "$P" || { echo "patch does not apply"; exit 3; }
+VERIF_REPLAYDIR=$W/.verif-replays VERIF_REPO=$W /verif/check "$ID" "$TIER" -noevidence "$@" 2>&1 | grep -E "VIOLATION|KNOWN|OK property|INCONCLUSIVE|violation:" | head -12
 rc=${PIPESTATUS[0]}
-git -C /repo checkout -- .
 echo "exit=$rc"
